@@ -246,11 +246,22 @@ def check_record_consistency(ctx, rec, case, sigbase):
     n = len(rec.z)
     dz, dE = (rec.z[-1] - rec.z[0]) / (n - 1), (rec.E[-1] - rec.E[0]) / (n - 1)
     worst = 0.0
+    # A bunch that has become narrower than RESOLVED_CELLS cells in either plane (damping-only runs collapse towards a point)
+    # is no longer represented by the grid: interpolation overshoot makes densities negative and the charge integral can
+    # vanish.  The property speaks of widths "to within the discretisation error of the grid", so the records of that
+    # bunch are not judged from there on (counted in the evidence).
+    unresolved = set()
     for k in range(rec.nrec):
         for b in range(rec.nb):
+            if b in unresolved:
+                continue
             for name, val, axis, prof, dl in (("BunchLength", rec.L[k][b], rec.z, rec.prof[k][b], dz),
                                               ("EnergySpread", rec.S[k][b], rec.E, rec.eprof[k][b], dE)):
                 var, qd = profile_variance(axis, prof, rec.prof[k][b], dl)
+                if var is not None and var == var and 0 <= var < (RESOLVED_CELLS * dl) ** 2:
+                    unresolved.add(b)
+                    ctx.count("record-consistency:bunch-below-grid-resolution")
+                    break
                 if var is None and val == 0:
                     continue
                 if var is None or not (var == var and abs(var) < 1e30 and val == val):
@@ -292,11 +303,16 @@ def check_moment_series(ctx, rec, case, sigbase, N, fptype, e1, tol_rel, angle=N
     t = float(f32(math.tan(a)))
     n = len(rec.z)
     delta = (rec.E[-1] - rec.E[0]) / (n - 1)
+    dz = (rec.z[-1] - rec.z[0]) / (n - 1)
     worst = 0.0
     for b in range(rec.nb):
         m = (rec.L[0][b] ** 2, 0.0, rec.S[0][b] ** 2)
         for k in range(1, rec.nrec):
             m = sm_step_nat(fptype, a, t, e1, delta, m)
+            if m[0] < (RESOLVED_CELLS * dz) ** 2 or m[2] < (RESOLVED_CELLS * delta) ** 2:
+                # the exact recurrence says the bunch is now narrower than the grid resolves (see check_record_consistency)
+                ctx.count("moment-series:stopped-below-grid-resolution")
+                break
             gl, gs = rec.L[k][b] ** 2, rec.S[k][b] ** 2
             size = max(m[0], m[2], 1.0)
             err = max(abs(gl - m[0]), abs(gs - m[2])) / size
@@ -324,6 +340,8 @@ def check_bunches_alike(ctx, rec, case, sigbase, tol=2e-4):
     return True
 
 
+RESOLVED_CELLS = 1.5   # rms width (in cells) below which a bunch is not judged any more: measured on the unchanged tree, the series error
+#                        of a damping-only run (n 48, zoom 0.6, e1 0.026) stays < 2e-4 down to 1.6 cells, is 7e-3 at 0.76 cells, NaN at < 0.3
 SERIES_TOL = 5e-4      # relative, on squared length/spread: measured worst 5e-5 over n 48/64, N 16..40, it 3/4, 3-point FP stencil,
 #                        PhaseSpaceSize >= 16 for zoom 1.5 (tails cut at >= 5 sigma); a frozen bunch or a 1/N error of the angle is >= 1e-2
 
